@@ -15,8 +15,10 @@ import traceback
 from typing import Any, Callable, Iterable, Optional
 
 VERIF = pathlib.Path(__file__).resolve().parent.parent
-EVIDENCE = VERIF / 'evidence'
-REPLAYS = VERIF / 'replays'
+# (overridable so that sensitivity sweeps against mutated scratch trees do not touch the
+# committed evidence)
+EVIDENCE = pathlib.Path(os.environ.get('VERIF_EVIDENCE_DIR') or (VERIF / 'evidence'))
+REPLAYS = pathlib.Path(os.environ.get('VERIF_REPLAYS_DIR') or (VERIF / 'replays'))
 KNOWN = VERIF / 'known_findings.json'
 
 MAX_SAMPLES = 12
